@@ -16,6 +16,7 @@ import concurrent.futures as _cf
 import concurrent.futures._base as _cf_base
 import concurrent.futures.process as _cf_process
 import concurrent.futures.thread as _cf_thread
+import enum
 import hashlib
 import io
 import os
@@ -362,6 +363,24 @@ class Kernel:
             v.extra[id(o)] = _get_rng_state(o)
         if self.virtual_modules:
             v.modg = {m.__name__: {n: x for n, x in vars(m).items() if _is_process_state(n, x)} for m in self.virtual_modules}
+            # class attributes that hold state (a class-level cache, counter, flag) are per process as well
+            for c in self._virtual_classes():
+                v.modg[f'class:{c.__module__}.{c.__qualname__}'] = {n: x for n, x in vars(c).items() if _is_class_state(n, x)}
+
+    def _virtual_classes(self):
+        vc = getattr(self, '_vclasses', None)
+        if vc is None:
+            vc = []
+            seen = set()
+            for m in self.virtual_modules:
+                for x in list(vars(m).values()):
+                    if isinstance(x, type) and getattr(x, '__module__', None) == m.__name__ and id(x) not in seen \
+                            and not issubclass(x, (BaseException, enum.Enum)):
+                        seen.add(id(x))
+                        vc.append(x)
+            vc.sort(key=lambda c: (c.__module__, c.__qualname__))
+            self._vclasses = vc
+        return vc
 
     def _restore_private(self, q):
         import numpy as np
@@ -386,6 +405,21 @@ class Kernel:
                 for n in [n for n, x in d.items() if _is_process_state(n, x) and n not in want]:
                     del d[n]                      # a variable another process created after the fork
                 d.update(want)
+            for c in self._virtual_classes():
+                want = v.modg.get(f'class:{c.__module__}.{c.__qualname__}')
+                if want is None:
+                    continue
+                for n in [n for n, x in vars(c).items() if _is_class_state(n, x) and n not in want]:
+                    try:
+                        delattr(c, n)
+                    except (AttributeError, TypeError):
+                        pass
+                for n, x in want.items():
+                    if vars(c).get(n, _MISSING) is not x:
+                        try:
+                            setattr(c, n, x)
+                        except (AttributeError, TypeError):
+                            pass
 
     def delay(self, p, kind):
         cfg = self.cfg
@@ -572,6 +606,21 @@ def _is_process_state(name, value):
     if name.startswith('__') and name.endswith('__'):
         return False
     return not isinstance(value, (types.FunctionType, types.BuiltinFunctionType, types.ModuleType, type, types.MethodType))
+
+
+_MISSING = object()
+
+
+def _is_class_state(name, value):
+    """class attributes that are data (a cache, a counter, a flag, a default container), not behaviour"""
+    import types
+    if name.startswith('__') and name.endswith('__'):
+        return False
+    if name in ('_abc_impl',):
+        return False
+    return not isinstance(value, (types.FunctionType, types.BuiltinFunctionType, types.ModuleType, type, types.MethodType,
+                                  classmethod, staticmethod, property, types.MemberDescriptorType, types.GetSetDescriptorType,
+                                  types.WrapperDescriptorType, types.MethodDescriptorType)) and not hasattr(value, '__get__')
 
 
 def _get_rng_state(o):
